@@ -4,7 +4,8 @@ import ao_corr
 
 def explore(run, lean):
     ao_corr.explore(run, "C12", 200 if run.tier == "quick" else 4000)
-    ao_corr.explore_handler_armed(run, 80 if run.tier == "quick" else 2000)
+    # (a broken obligation or tie widens the search for a failing schedule)
+    ao_corr.explore_handler_armed(run, (80 if run.tier == "quick" else 2000) * (5 if lean.get("broken") else 1))
     run.extra["rule"] = ("(a) scenarios: one control thread issuing 2-7 calls (timed post_fifo/post_lifo with period 1-3 ticks, times 0-3, "
                          "deferred or not; cancel_event / cancel_events with the identical or an equal-but-distinct id / name object; "
                          "stop()), tracked-source capacity 2-6, optional plain poster; real ActiveObject under the deterministic "
